@@ -94,6 +94,13 @@ def _runner_main(jobs_path: str, out_path: str) -> None:
                 outcome = {'kind': 'raise', 'exc': name, 'cause': cause, 'keys': [], 'vals': [], 'msg': str(ex)[:200]}
             _verif.emit('outcome', **outcome)
             labtech.logger.handlers = old
+            # workers orphaned by an aborted run (LabError, second interrupt) would block at their gates and
+            # be joined at interpreter exit: remove them now (manager processes are left alone)
+            import multiprocessing
+            for child in multiprocessing.active_children():
+                if not child.name.startswith('SyncManager'):
+                    child.kill()
+                    child.join(5)
             os.environ.pop('LV_GATE_DIR', None)
             _verif.emit('obs_begin')
             cached, vals = ([], [])
